@@ -292,7 +292,11 @@ def call_histories(ctx, arcs1, thorough):
     if thorough:
         r4 = ctx.tlc_ok("ArcCallsMC", X.calls_cfg("none", 4, ["buffer", "alias", "copy"], True), extra_modules=mc, workers=8, timeout=3000,
                         what="ValueSemantics with no cache; emit every history of 4 steps (forms buffer / alias / copy)")
-        hists += [v[1] for v in X.extract_prints(r4.out) if v[0] == "H"]
+        h4 = sorted(v[1] for v in X.extract_prints(r4.out) if v[0] == "H")
+        n4 = len(h4)
+        # all of them are model-checked; a seeded sample is replayed (every 3-step history is)
+        hists += random.Random(ctx.seed).sample(h4, min(len(h4), 6000))
+        ctx.note("call_histories_4_steps", {"model_checked": n4, "replayed_sample": min(n4, 6000)})
     ctx.tlc_ok("ArcCallsMC", X.calls_cfg("by_value", steps, X.CALL_FORMS, False), extra_modules=mc, workers=8, timeout=3000,
                what="ValueSemantics with a cache keyed by the VALUE of the arc")
     bad = ctx.tlc("ArcCallsMC", X.calls_cfg("by_identity", steps, X.CALL_FORMS, False), extra_modules=mc, workers=1, timeout=3000, count=False,
@@ -315,14 +319,29 @@ def call_histories(ctx, arcs1, thorough):
                 cases.append({"id": "H:%s:%d" % (fn, n), "fn": fn, "steps": stp, "cand": cand})
     X.warm_up()
     recs = pmap(X.replay_history, cases)
-    path = os.path.join(ctx.work, "calls.ndjson")
-    with open(path, "w") as fh:
-        for rec in recs:
-            fh.write(json.dumps(rec, separators=(",", ":")) + "\n")
-    res = ctx.tlc_ok("JudgeCalls", "INIT Init\nNEXT Next\nINVARIANT Judge\nCHECK_DEADLOCK FALSE\n", env={"REC_FILE": path}, workers=8,
-                     count=False, timeout=3000, what="validate %d recorded call histories against the value-level answers" % len(recs))
-    os.remove(path)
-    pr = X.extract_prints(res.out)
+    # the Json module holds a whole file in memory: at most 25 000 records per TLC run, a few runs side by side
+    from concurrent.futures import ThreadPoolExecutor
+    import time
+
+    batches = [recs[k:k + 25000] for k in range(0, len(recs), 25000)]
+    nproc = int(os.environ.get("VERIF_NPROC", "0") or 0) or 8
+    par = max(1, min(len(batches), nproc // 2, 4))
+
+    def judge_batch(kb):
+        k, batch = kb
+        time.sleep(0.3 * (k % par))            # harness.tlc names its scratch files by the millisecond
+        path = os.path.join(ctx.work, "calls_%d.ndjson" % k)
+        with open(path, "w") as fh:
+            for rec in batch:
+                fh.write(json.dumps(rec, separators=(",", ":")) + "\n")
+        res = ctx.tlc_ok("JudgeCalls", "INIT Init\nNEXT Next\nINVARIANT Judge\nCHECK_DEADLOCK FALSE\n", env={"REC_FILE": path},
+                         workers=max(2, min(8, nproc // par)), count=False, timeout=3000,
+                         what="validate %d recorded call histories against the value-level answers (batch %d/%d)" % (len(batch), k + 1, len(batches)))
+        os.remove(path)
+        return X.extract_prints(res.out)
+
+    with ThreadPoolExecutor(par) as ex:
+        pr = [v for part in ex.map(judge_batch, enumerate(batches)) for v in part]
     S = [v for v in pr if v[0] == "S"]
     if len(S) != len(recs):
         raise Machinery("JudgeCalls answered %d of %d histories" % (len(S), len(recs)))
